@@ -422,6 +422,15 @@ func (x g) scFile() string {
 					cell = x.fnApp(2, func(d int) string { return x.constant(d) })
 				case k == 16:
 					cell = x.pick([]string{"X", "_", "p(1)", "fn:foo(1)", "fn:list:get([], 5)", "fn:div(1, 0)", "fn:time:now()", "fn:collect(1)", "fn:group_by()"})
+				case k == 17:
+					// a quoted cell whose escape sequence is cut short or out of range while the closing quote is in place
+					cell = x.pick([]string{`"`, `b"`, "'"}) + x.pick([]string{"", "snow ", "a"}) +
+						x.pick([]string{`\u`, `\u{`, `\u{0026`, `\u{002603`, `\x`, `\x4`, `\u{110000}`, `\u{d800}`, `\`, `\q`, `\u{}`, `\u{zz}`})
+					if cell[0] == 'b' {
+						cell += `"`
+					} else {
+						cell += string(cell[0])
+					}
 				default:
 					cell = x.term(2, nil)
 				}
